@@ -24,4 +24,21 @@ let c08_print (line : string) : string =
       | ApPanic w -> "panic" ^ string_of_int (int_of_n w)) c08_configs)
   | _ -> failwith "c08_print line"
 
-let families = [ ("c08_print", c08_print); ("c08_print_partial", c08_print) ]
+(* model-internal self test (not part of the tie): the token view renders to the same text, unseparated
+   neighbours are adjacent_safe, and a well-formed AST gives well-formed tokens *)
+let c08_selftest (line : string) : string =
+  match String.split_on_char ' ' line with
+  | [_src; ast] ->
+    let d = Lib_ast.document_of_string ast in
+    let wf = wfd d in
+    let bad = List.filter_map (fun cfg ->
+      let toks = ptokens cfg d in
+      match ast_print cfg d with
+      | ApOk t when t = pt_render toks && pt_consecutive_safe toks
+                    && (not wf || List.for_all (fun t -> ptok_wf t.pt_tok) toks) -> None
+      | _ -> Some "x") c08_configs in
+    if bad = [] then (if wf then "ok wf" else "ok notwf") else "bad"
+  | _ -> failwith "c08_selftest line"
+
+let families = [ ("c08_print", c08_print); ("c08_print_partial", c08_print);
+                 ("c08_selftest", c08_selftest) ]
